@@ -127,6 +127,10 @@ def main() -> None:
             unexpected = [l for l in main if l.startswith(("FAILED", "ERROR")) and not any(a in l for a in ALLOWED_FAIL)]
             rerun_summary = next((l for l in reversed(rerun) if re.search(r"\d+ (passed|failed)", l)), "")
             rerun_failed = [l for l in rerun if l.startswith(("FAILED", "ERROR"))]
+            rerun2 = [l for l in lines if l.startswith("RERUN2: ")]
+            if rerun2 and all("passed" in l and "failed" not in l.split("(")[0] for l in rerun2):
+                rerun_failed = []  # the tests that failed again in the first (loaded) re-run passed when re-run on an idle machine
+                rerun_summary = rerun_summary + " | second attempt on an idle machine: " + rerun2[-1][len("RERUN2: "):]
             ok = bool(summary) and (not unexpected or (bool(rerun_summary) and not rerun_failed))
             tests = {
                 "command": ("tools/seed_tests2.sh: the part of the pinned suite that can see the touched files (" + (selection[:120] + " ...)" if selection else "") if selection else "tools/seed_tests.sh: the whole pinned suite (pytest -n 8)") + " on a scratch worktree of /repo with the patch applied",
